@@ -49,6 +49,11 @@ type c07Case struct {
 	hllKeys   map[string]int // "table:key" -> index of the first PFADD on it
 	hllKeyMix map[string]int // "table:key" -> index of the first non-PFADD command on it after its first PFADD
 	hllMix    int            // minimum over hllKeyMix, -1 none
+	// hllOnlyDel: every non-PFADD command that touches a key after its first
+	// PFADD is a DEL. On the unchanged tree the ONLY effect of the write cache in
+	// such a log is the integer reply of those DELs (an HLL that lives only in the
+	// cache is not counted as deleted); the HLL itself is gone on every replica.
+	hllOnlyDel bool
 }
 
 // keyArgs returns the "table:key" arguments of command i.
@@ -69,6 +74,7 @@ func (cs *c07Case) hll() (map[string]int, int) {
 		cs.hllKeys = map[string]int{}
 		cs.hllKeyMix = map[string]int{}
 		cs.hllMix = -1
+		cs.hllOnlyDel = true
 		for i, gc := range cs.Cmds {
 			ks := cs.keyArgs(i)
 			if gc.Cmd.Name() == "pfadd" {
@@ -81,6 +87,9 @@ func (cs *c07Case) hll() (map[string]int, int) {
 			}
 			for _, k := range ks {
 				if _, ok := cs.hllKeys[k]; ok {
+					if gc.Cmd.Name() != "del" {
+						cs.hllOnlyDel = false
+					}
 					if _, seen := cs.hllKeyMix[k]; !seen {
 						cs.hllKeyMix[k] = i
 					}
@@ -643,6 +652,7 @@ func (d *divergence) String() string {
 func compareTo(cs *c07Case, an string, a *repResult, bn string, b *repResult, rawToo bool, limit int) *divergence {
 	n := len(cs.Cmds)
 	hllKeys, hllMix := cs.hll()
+	var delReply *divergence
 	if a.PanicAt != b.PanicAt {
 		// a panic is located at its apply batch; replicas with different batching
 		// place it differently. Compare the command ranges instead.
@@ -665,12 +675,26 @@ func compareTo(cs *c07Case, an string, a *repResult, bn string, b *repResult, ra
 			d := &divergence{Kind: "reply", A: an, B: bn, Index: i, Detail: fmt.Sprintf("%v -> %s vs %s", cs.Cmds[i].Cmd, a.Replies[i], b.Replies[i])}
 			if cs.touchesHLLKey(i) {
 				d.Class = "hll-mix"
+				if cs.hllOnlyDel {
+					if cs.Cmds[i].Cmd.Name() == "del" && strings.HasPrefix(a.Replies[i], ":") && strings.HasPrefix(b.Replies[i], ":") {
+						// known and harmless for what follows: the DEL of an HLL that only
+						// lives in the write cache is answered with a lower count; the key is
+						// gone on both replicas. Keep comparing.
+						if delReply == nil {
+							d.Class = "hll-del-reply"
+							delReply = d
+						}
+						continue
+					}
+					// anything else on such a key is not what the unchanged tree shows
+					d.Class = "hll-survives-del"
+				}
 			}
 			return d
 		}
 	}
 	if limit < n || a.PanicAt >= 0 || b.PanicAt >= 0 {
-		return nil
+		return delReply
 	}
 	var bytesOnly *divergence
 	if cs.Live || os.Getenv("VERIF_DEV_XRAW") != "" {
@@ -689,6 +713,9 @@ func compareTo(cs *c07Case, an string, a *repResult, bn string, b *repResult, ra
 			if hllMix >= 0 && hllLineDiff(ma, mb, hllKeys) {
 				dv.Class = "hll-mix"
 				dv.Index = hllMix
+				if cs.hllOnlyDel {
+					dv.Class = "hll-survives-del"
+				}
 			}
 			return dv
 		}
@@ -702,6 +729,9 @@ func compareTo(cs *c07Case, an string, a *repResult, bn string, b *repResult, ra
 				if hllMix >= 0 && hllRawDiff(ra, rb, hllKeys) {
 					dv.Class = "hll-mix"
 					dv.Index = hllMix
+					if cs.hllOnlyDel {
+						dv.Class = "hll-survives-del"
+					}
 				}
 				return dv
 			}
@@ -709,6 +739,9 @@ func compareTo(cs *c07Case, an string, a *repResult, bn string, b *repResult, ra
 				bytesOnly = &divergence{Kind: "raw", A: an, B: bn, Index: -1, Detail: d, Class: "hll-bytes"}
 			}
 		}
+	}
+	if delReply != nil {
+		return delReply
 	}
 	return bytesOnly
 }
@@ -879,6 +912,12 @@ func genCase(r *rand.Rand, id int, n int) *c07Case {
 	default:
 		g.HLLMode = 2
 	}
+	if r.Intn(6) == 0 {
+		// directed family: PFADD new key -> [flush / restart cut on some replicas]
+		// -> DEL -> PFADD; nothing but DEL ever touches the HyperLogLog keys
+		g.HLLMode = 1
+		g.HLLDel = 0.15
+	}
 	// log timestamps days away from real time, in both directions
 	offs := []time.Duration{-72 * time.Hour, 72 * time.Hour, -9600 * time.Hour, 9600 * time.Hour, 30 * time.Hour, -30 * time.Hour}
 	ts := time.Now().Add(offs[r.Intn(len(offs))]).UnixNano()
@@ -944,22 +983,23 @@ func caseFromWitness(w *c07Witness) (*c07Case, error) {
 // evaluation of one case, phase 1 (everything except the delayed replicas)
 
 type c07Eval struct {
-	cs       *c07Case
-	specs    []repSpec // clean-case replicas (R0..R3) + delayed ones (R4,R5) appended
-	results  map[string]*repResult
-	failing  map[int]bool // R0: command failed at apply
-	forced   []int        // indices of failing batchable commands
-	div      *divergence  // first unexplained divergence
-	known    *divergence  // divergence explained by the batch-abort finding
-	knownSig string
-	knownWin *abortWindow
-	incon    string
-	taintRun bool
-	reported map[string]bool
-	tooLate  bool            // live-clock log: R0 did not finish before the expiry instant (retry with a fresh log)
-	lateSkip map[string]bool // live-clock log: replicas excluded from comparison because of their real execution time
-	hllBytes *divergence     // only the stored bytes of HLL values differ (does not taint)
-	hllMix   *divergence     // HLL write-cache flush timing met a KV-level command (taints the log)
+	cs          *c07Case
+	specs       []repSpec // clean-case replicas (R0..R3) + delayed ones (R4,R5) appended
+	results     map[string]*repResult
+	failing     map[int]bool // R0: command failed at apply
+	forced      []int        // indices of failing batchable commands
+	div         *divergence  // first unexplained divergence
+	known       *divergence  // divergence explained by the batch-abort finding
+	knownSig    string
+	knownWin    *abortWindow
+	incon       string
+	taintRun    bool
+	reported    map[string]bool
+	tooLate     bool            // live-clock log: R0 did not finish before the expiry instant (retry with a fresh log)
+	lateSkip    map[string]bool // live-clock log: replicas excluded from comparison because of their real execution time
+	hllDelReply *divergence     // DEL of a cache-only HLL answered with a lower count (does not taint)
+	hllBytes    *divergence     // only the stored bytes of HLL values differ (does not taint)
+	hllMix      *divergence     // HLL write-cache flush timing met a KV-level command (taints the log)
 }
 
 // note files a divergence by class; it returns true if the evaluation of this
@@ -969,6 +1009,11 @@ func (ev *c07Eval) note(d *divergence) bool {
 	case "hll-bytes":
 		if ev.hllBytes == nil {
 			ev.hllBytes = d
+		}
+		return false
+	case "hll-del-reply":
+		if ev.hllDelReply == nil {
+			ev.hllDelReply = d
 		}
 		return false
 	case "hll-mix":
@@ -1149,6 +1194,14 @@ func evalTaint(scratch string, ev *c07Eval, tspecs []repSpec) {
 
 // divSig is the signature of an unexplained divergence.
 func divSig(ev *c07Eval, d *divergence) string {
+	if d.Class == "hll-survives-del" {
+		// a log in which DEL is the only KV-level command on HyperLogLog keys: the
+		// unchanged tree differs in the DEL reply only
+		if d.Kind == "reply" {
+			return "hll-survives-del/" + ev.cs.Cmds[maxInt(d.Index, 0)].Cmd.Name()
+		}
+		return "hll-survives-del/state"
+	}
 	sig := d.Kind + "-divergence/" + engineOf(ev.specs, d.A) + "-" + engineOf(ev.specs, d.B)
 	if d.Kind == "reply" || d.Kind == "panic" {
 		sig = d.Kind + "-divergence/" + ev.cs.Cmds[maxInt(d.Index, 0)].Cmd.Name()
@@ -1457,6 +1510,13 @@ func runC07(c *vc.Ctx) error {
 			}
 			viol(c, sig, ev.hllBytes.String(), w)
 		}
+		if ev.hllDelReply != nil && !ev.reported["hllDelReply"] {
+			ev.reported["hllDelReply"] = true
+			c.Ev.Count("logs_with_del_reply_of_cache_only_hll_differing", 1)
+			w := cs.witness(ev.specs, ev.hllDelReply, ev.results)
+			w.Note = "DEL of a HyperLogLog that lives only in the write cache does not count it (reply lower by one than on a replica that flushed the cache before); the key is gone on both replicas, evaluation of the log continues"
+			viol(c, "hll-cache-flush-timing/del", ev.hllDelReply.String(), w)
+		}
 		if ev.hllMix != nil && !ev.reported["hllMix"] {
 			ev.reported["hllMix"] = true
 			c.Ev.Count("logs_tainted_by_hll_cache_flush_timing", 1)
@@ -1729,6 +1789,10 @@ func replayC07(c *vc.Ctx) error {
 		fmt.Fprintf(os.Stdout, "replay: %s\n", ev.hllBytes.String())
 		c.Violation("hll-stored-bytes-differ/pfadd", ev.hllBytes.String(), cs.witness(ev.specs, ev.hllBytes, nil))
 	}
+	if ev.hllDelReply != nil {
+		fmt.Fprintf(os.Stdout, "replay: %s\n", ev.hllDelReply.String())
+		c.Violation("hll-cache-flush-timing/del", ev.hllDelReply.String(), cs.witness(ev.specs, ev.hllDelReply, ev.results))
+	}
 	if ev.hllMix != nil {
 		fmt.Fprintf(os.Stdout, "replay: %s\n", ev.hllMix.String())
 		sig := "hll-cache-flush-timing/state"
@@ -1737,7 +1801,7 @@ func replayC07(c *vc.Ctx) error {
 		}
 		c.Violation(sig, ev.hllMix.String(), cs.witness(ev.specs, ev.hllMix, ev.results))
 	}
-	if ev.known == nil && ev.div == nil && ev.hllBytes == nil && ev.hllMix == nil {
+	if ev.known == nil && ev.div == nil && ev.hllBytes == nil && ev.hllMix == nil && ev.hllDelReply == nil {
 		fmt.Println("replay: no divergence")
 	}
 	return nil
